@@ -1,6 +1,7 @@
 """C17 Starving/DAG mutexes, Counter/Stack waits: interleaving model (coq/C17_Sync) + scripted arrival orders,
 free-running contention, misuse under recover (DESIGN.md §7.17)."""
 import os
+import shutil
 
 from . import lib
 
@@ -10,6 +11,15 @@ DIRS = ["C17_Sync"]
 
 def run(ctx):
     thorough = ctx.tier == "thorough"
+    # compile-time mode switches of runtime/syncutils: the build tags `deadlock` and `fakemutex` re-alias syncutils.Mutex/RWMutex
+    # (go-deadlock's mutexes / an RWMutex whose RLock is exclusive). The four objects use sync.Mutex/sync.RWMutex directly, so
+    # the variants must behave identically: binaries built with each tag run the scripted families (Go-side oracle; cases are
+    # evaluated in Coq only when they differ from the plain build's) and the free-running ones.
+    variants = []
+    for tag in ("deadlock", "fakemutex"):
+        b = ctx.go_build("c17", tags="verif," + tag)
+        shutil.copy2(b, b + "-" + tag)
+        variants.append((tag, b + "-" + tag))
     hx = ctx.go_build("c17")
     ctx.proof_side(DIRS, "Properties/C17.v", extra_trusted=[
         "hand-written interleaving model of runtime/syncutils starvingmutex.go, dagmutex.go, counter.go, stack.go (Model.v): "
@@ -31,7 +41,17 @@ def run(ctx):
         # deterministic) are covered by its Coq evaluation and only differing cases files are evaluated again.
         ctx.corr(hx, args + ["--debug", "--same-as", os.path.join(ctx.build, "cases_%s.v" % what)],
                  cases_name="cases_%s_debug.v" % what)
+        for tag, hxt in variants:
+            ctx.corr(hxt, args + ["--variant", tag, "--same-as", os.path.join(ctx.build, "cases_%s.v" % what)],
+                     cases_name="cases_%s_%s.v" % (what, tag))
+            if thorough:
+                ctx.corr(hxt, args + ["--variant", tag, "--debug", "--same-as", os.path.join(ctx.build, "cases_%s.v" % what)],
+                         cases_name="cases_%s_%s_debug.v" % (what, tag))
     nfree = "25" if thorough else "4"
+    for tag, hxt in variants:
+        ctx.corr(hxt, ["free", "--variant", tag, "--n", "2"], cases_name="free_%s.v" % tag)
+        if thorough:
+            ctx.corr(hxt, ["free", "--variant", tag, "--debug", "--n", "2"], cases_name="free_%s_debug.v" % tag)
     ctx.corr(hx, ["free", "--n", nfree], cases_name="free.v")
     # debug mode: the same runs + directed cases about the deadlock detector itself (short waits: detectors end with the
     # acquisition, nothing reported; a wait longer than debug.DeadlockDetectionTimeout: reported once, still parked, granted
@@ -50,7 +70,8 @@ def run(ctx):
         "micro-seconds), it never panics or touches the lock (directed cases: short waits unreported and detectors ended, a "
         "long wait reported once, still parked, granted after the release); switching the mode while a call is blocked: "
         "directed cases only. Build tags `deadlock` / `fakemutex` only re-alias syncutils.Mutex/RWMutex, which none of the four "
-        "objects uses (they use sync.Mutex/sync.RWMutex directly): not run",
+        "objects uses (they use sync.Mutex/sync.RWMutex directly): binaries built with each tag run the same families and must "
+        "produce the same observations",
         "critical sections under the objects' internal mutexes are atomic; Go memory-model data races are out of scope "
         "(StarvingMutex.String() reads the fields without the mutex: not used)",
         "liveness is stated as absence of lost wake-ups / of stuck states, not as eventual progress under a fair scheduler "
